@@ -305,8 +305,15 @@ func (m *RuleManager) beginPatch() *ruleConfigPatch {
 	return m.ruleConfig.beginPatch()
 }
 
-func (m *RuleManager) tryCommitPatch(patch *ruleConfigPatch) error {
+func (m *RuleManager) tryCommitPatch(patch *ruleConfigPatch) (err error) {
 	patch.adjust()
+	defer func() {
+		if err != nil {
+			// The patch is dropped. patch.adjust() has pointed the rules that are
+			// still being served to the groups of the patch, point them back.
+			m.ruleConfig.adjust()
+		}
+	}()
 
 	ruleList, err := buildRuleList(patch)
 	if err != nil {
